@@ -61,6 +61,11 @@ def finish_history(h):
             continue
         height += 1
         for op in b:
+            # a Group with no keys hashes to the same global id whatever the tag: one canonical tag
+            if op[0] == 1 and op[5] != 0 and op[6] == 0:
+                op[5] = 1
+            if op[0] == 2 and len(op) == 8 and op[6] != 0 and op[7] == 0:
+                op[6] = 1
             if op[0] in (1, 2, 5, 6):
                 i = (op[1], op[2], op[3])
                 if i not in ids:
@@ -494,6 +499,89 @@ def gen_timeout(rng, world=None, audit=None):
             blocks.append(0)
     if audit is None:
         audit = 1 if rng.random() < 0.15 else 0
+    return mk_history(world, blocks, audit=audit)
+
+
+def gen_shared_expiry(rng, world=None, audit=None):
+    """k >= 2 one-to-one requests (one or several source chains, distinct or repeated pairs) that all expire at ONE
+    height K; all / some of their receipts packed into a single block before K (in request order or reversed
+    across pairs), the rest in other blocks, at K, after K or never; then the chain runs up to K and beyond.
+    Exercises the accumulate-then-write structure of setTimeoutList (several removals / additions for one list)."""
+    world = world or W_GROUP
+    srcs = rng.choice([[1], [1], [1, 2], [1, 2, 3], [6, 2]])
+    dsts = [2, 3, 4, 7, 6, 1]
+    k = rng.randrange(2, 6)
+    span = rng.randrange(1, 4)                      # requests are issued in blocks START_H .. START_H+span-1
+    K = START_H + span - 1 + rng.randrange(2, 6)    # the common expiry height
+    last = K + rng.randrange(1, 4)
+    tl = {h: [] for h in range(START_H, last + 1)}
+    nxt, reqs = {}, []
+    for _ in range(k):
+        s = rng.choice(srcs)
+        d = rng.choice([x for x in dsts if x != s])
+        H = rng.randrange(START_H, START_H + span)
+        reqs.append((H, s, d))
+    reqs.sort(key=lambda r: r[0])
+    items = []
+    for H, s, d in reqs:
+        idx = nxt.get((s, d), 0) + 1
+        nxt[(s, d)] = idx
+        T = K - H
+        if rng.random() < 0.1:
+            T += rng.choice([1, -1])                # a neighbour list
+        tl[H].append([1, s, d, idx, T, 0, 0, 1])
+        items.append((H, s, d, idx))
+    lo = max(H for H, _, _, _ in items)
+    R = rng.randrange(lo, K) if rng.random() < 0.85 else K      # the block that packs the receipts
+    mode = rng.choice(["all", "all", "some", "some", "one_each"])
+    packed, others = [], []
+    for it in items:
+        if mode == "all" or (mode == "some" and rng.random() < 0.6):
+            packed.append(it)
+        else:
+            others.append(it)
+    if mode == "some" and len(packed) < 2:
+        packed, others = items[:2], items[2:]
+    if mode == "one_each":
+        packed, others = [], items
+    def rcp(it, kind=None):
+        _, s, d, idx = it
+        return [2, s, d, idx, kind or rng.choice([1, 1, 1, 2, 2, 3]), 1]
+    ops = [rcp(it) for it in packed]
+    if rng.random() < 0.5:
+        ops.reverse()                               # reversed across pairs
+        if rng.random() < 0.6:
+            # ... but the receipts of one pair stay in index order (otherwise the later ones are simply rejected)
+            by, seen = {}, {}
+            for o in ops:
+                by.setdefault((o[1], o[2]), []).append(o[3])
+            for v in by.values():
+                v.sort()
+            for o in ops:
+                j = seen.get((o[1], o[2]), 0)
+                o[3] = by[(o[1], o[2])][j]
+                seen[(o[1], o[2])] = j + 1
+    tl[R] += ops
+    for it in others:
+        r = rng.random()
+        if r < 0.25:
+            continue                                # never answered: must time out at K
+        h2 = rng.choice([x for x in range(it[0], last + 1)])
+        tl[h2].append(rcp(it))
+    if rng.random() < 0.3:
+        # a late receipt (rollback confirmation) after K for something that timed out
+        it = rng.choice(items)
+        tl[rng.randrange(K, last + 1)].append(rcp(it, rng.choice([3, 1])))
+    blocks = []
+    for h in sorted(tl):
+        b = tl[h]
+        if rng.random() < 0.08:
+            b.append([3])
+        blocks.append(b)
+        if rng.random() < 0.08:
+            blocks.append(0)
+    if audit is None:
+        audit = 1 if rng.random() < 0.1 else 0
     return mk_history(world, blocks, audit=audit)
 
 
